@@ -16,6 +16,9 @@ from mc import hashers as HS
 from mc.core import Acc
 
 warnings.filterwarnings("ignore")
+import logging as _logging
+
+_logging.getLogger().setLevel(_logging.ERROR)  # digest-name lookups of mutated strings log a warning each
 
 ID = "C08"
 LEVEL = "exploration"
@@ -260,6 +263,15 @@ def allowed_to_verify(name, seedhash, label, mutant):
     # R1: decorated integers denoting the same number ('+1', ' 1', '01') in a numeric field
     if _numeric_canon(mutant) == _numeric_canon(seedhash):
         return True
+    # R7: a parameter of a 'k=v,k=v' list repeated with the identical value denotes the same settings
+    if label.startswith("dupfield,"):
+        fs, fm = seedhash.split("$"), mutant.split("$")
+        if len(fs) == len(fm):
+            diff = [j for j in range(len(fs)) if fs[j] != fm[j]]
+            if len(diff) == 1 and "=" in fs[diff[0]]:
+                a, bb = fs[diff[0]].split(","), fm[diff[0]].split(",")
+                if sorted(set(a)) == sorted(set(bb)) and len(set(a)) == len(a):
+                    return True
     # R3: '=' padding added to / removed from the end of a standard-base64 field
     if mutant.rstrip("=") == seedhash.rstrip("=") and (b.startswith("ldap_salted") or b in ("fshp", "cta_pbkdf2_sha1", "django_pbkdf2_sha1", "django_pbkdf2_sha256", "atlassian_pbkdf2_sha1")):
         return True
@@ -323,6 +335,60 @@ def probe(name, H, cx, seedhash, label, mutant, form, mode):
     return out
 
 
+# ---------------------------------------------------------------------------
+# libpass hashers (identify/verify/needs_update take the hash FIRST; malformed strings answer False, never raise)
+# ---------------------------------------------------------------------------
+LIBPASS = {
+    # name: (constructor settings list, fixed salts)
+    "lp_sha256": [({"rounds": 1000}, "saltSALTsalt1234"), ({"rounds": 5000}, "ab"), ({"rounds": 1001}, "")],
+    "lp_sha512": [({"rounds": 1000}, "saltSALTsalt1234"), ({"rounds": 5000}, "ab")],
+    "lp_pbkdf2_sha256": [({"rounds": 1}, b"0123456789abcdef"), ({"rounds": 12}, b"\x00\xff")],
+    "lp_pbkdf2_sha512": [({"rounds": 1}, b"0123456789abcdef")],
+    "lp_bcrypt": [({"rounds": 4}, b"$2b$04$abcdefghijklmnopqrstuu"), ({"rounds": 5, "prefix": "2a"}, b"$2a$05$......................")],
+    "lp_bcrypt_sha256": [({"rounds": 4}, b"$2b$04$abcdefghijklmnopqrstuu"), ({"rounds": 5}, b"$2b$05$......................")],
+}
+LIBPASS_BASE = {"lp_sha256": "sha256_crypt", "lp_sha512": "sha512_crypt", "lp_pbkdf2_sha256": "pbkdf2_sha256",
+                "lp_pbkdf2_sha512": "pbkdf2_sha512", "lp_bcrypt": "bcrypt", "lp_bcrypt_sha256": "bcrypt_sha256"}
+
+
+def libpass_seed(name, si):
+    from mc.checks.c01 import libpass_hasher
+
+    st, salt = LIBPASS[name][si]
+    kw = dict(st)
+    H = libpass_hasher(name, kw.pop("rounds"))
+    if kw.get("prefix"):
+        H = type(H)(rounds=st["rounds"], prefix=kw["prefix"])
+    return H, H.hash(PW, salt=salt)
+
+
+def probe_libpass(name, H, seedhash, label, mutant, form, mode):
+    out = []
+    arg = mutant
+    if form == "bytes":
+        try:
+            arg = mutant.encode("utf-8")
+        except UnicodeEncodeError:
+            return out
+    kind = label.split("@")[0].split(":")[0]
+    pre = f"C08|{name}|{mode}|"
+    for op, f in (("identify", lambda: H.identify(arg)), ("needs_update", lambda: H.needs_update(arg)), ("verify", lambda: H.verify(arg, PW))):
+        try:
+            r = f()
+        except OK_EXC as e:
+            if op == "identify":
+                out.append((pre + f"identify_raises:{type(e).__name__}:{kind}", f"libpass {type(H).__name__}.identify({arg!r}) raised {e!r} [{label}]"))
+            continue
+        except Exception as e:  # noqa: BLE001
+            out.append((pre + f"{op}_raises:{type(e).__name__}:{kind}", f"libpass {type(H).__name__}.{op}({arg!r}) raised {e!r} [{label}]"))
+            continue
+        if not isinstance(r, bool):
+            out.append((pre + f"{op}_nonbool:{kind}", f"{op}({arg!r}) returned {r!r}"))
+        if op == "verify" and r and not allowed_to_verify(LIBPASS_BASE[name], seedhash, label, mutant):
+            out.append((pre + f"altered_verifies:{kind}", f"libpass {type(H).__name__}.verify({arg!r}, {PW!r}) is True although the stored hash {seedhash!r} was altered [{label}]"))
+    return out
+
+
 def eval_case(case):
     """one mutant (self-contained): {hasher, settings, ctx, label, form, mode}"""
     if case.get("mode") == "O" and __debug__:
@@ -330,6 +396,12 @@ def eval_case(case):
     name = case["hasher"]
     if name == "@context":
         return eval_context_case(case)
+    if name in LIBPASS:
+        H, seedhash = libpass_seed(name, case["si"])
+        for label, mutant in mutations(seedhash, SIGMA_FULL):
+            if label == case["label"]:
+                return probe_libpass(name, H, seedhash, label, mutant, case["form"], case.get("mode", "default"))
+        return []
     H = HS.handler(name)
     st, cx = case["settings"], case["ctx"]
     Hc = H.using(**st) if st else H
@@ -416,11 +488,16 @@ def work(task):
         acc.cls("@context", scheme, mode)
         acc.axis("hasher", "CryptContext")
         return acc
-    H = HS.handler(name)
-    st, cx = task["settings"], task["ctx"]
-    Hc = H.using(**st) if st else H
-    with _pinned_rng():
-        seedhash = Hc.hash(PW, **cx)
+    lib = name in LIBPASS
+    if lib:
+        H, seedhash = libpass_seed(name, task["si"])
+        st, cx = LIBPASS[name][task["si"]][0], {}
+    else:
+        H = HS.handler(name)
+        st, cx = task["settings"], task["ctx"]
+        Hc = H.using(**st) if st else H
+        with _pinned_rng():
+            seedhash = Hc.hash(PW, **cx)
     muts = mutations(seedhash, sigma)
     if task.get("stride", 1) > 1:
         # slow hashers: every structural mutation, but only every k-th position-level symbol mutation
@@ -430,9 +507,14 @@ def work(task):
     for label, mutant in muts:
         for form in forms:
             acc.evaluations += 1
-            vs = probe(name, H, cx, seedhash, label, mutant, form, mode)
+            if lib:
+                vs = probe_libpass(name, H, seedhash, label, mutant, form, mode)
+                case = {"hasher": name, "si": task["si"], "label": label, "form": form, "mode": mode}
+            else:
+                vs = probe(name, H, cx, seedhash, label, mutant, form, mode)
+                case = {"hasher": name, "settings": st, "ctx": cx, "label": label, "form": form, "mode": mode}
             for key, desc in vs:
-                acc.violation(key, desc, {"hasher": name, "settings": st, "ctx": cx, "label": label, "form": form, "mode": mode})
+                acc.violation(key, desc, case)
         kinds.add(label.split("@")[0].split(":")[0])
     acc.counters["mutants"] += len(muts) * len(forms)
     acc.counters["distinct_mutants_bulk"] += len(muts) * len(forms)
@@ -471,6 +553,9 @@ def build_tasks(quick, seed):
             elif slow:
                 t["stride"] = 3 if quick else 1
             tasks.append(t)
+    for name in LIBPASS:
+        for si in range(len(LIBPASS[name])):
+            tasks.append({"hasher": name, "si": si, "sigma": sigma, "forms": ("str", "bytes") if si == 0 else ("str",)})
     for scheme in ("sha256_crypt", "md5_crypt", "pbkdf2_sha256", "ldap_salted_sha1", "des_crypt", "hex_md5"):
         tasks.append({"hasher": "@context", "scheme": scheme, "sigma": sigma, "forms": ("str", "bytes")})
     tasks.sort(key=lambda t: -HS.SLOW.get(t["hasher"], 0))
